@@ -22,9 +22,9 @@ class C08(Pipeline):
     mc = [("ChainHistory_mc", "ChainHistory_mc", ("quick", "thorough")),
           ("ChainHistory_mc", "ChainHistory_mc_deep", ("thorough",))]
     gens = [Gen("ChainHistoryGen8", "ChainHistoryGen8_cover", "bfs", tiers=("quick",), timeout=300),
-            Gen("ChainHistoryGen8", "ChainHistoryGen8_cover_big", "bfs", tiers=("thorough",), timeout=1200, cap=2500),
+            Gen("ChainHistoryGen8", "ChainHistoryGen8_cover_big", "bfs", tiers=("thorough",), timeout=1200, cap=2000),
             Gen("ChainHistoryGen8", "ChainHistoryGen8_sim", "simulate", num=120, depth=19, tiers=("quick",), timeout=300),
-            Gen("ChainHistoryGen8", "ChainHistoryGen8_sim", "simulate", num=1200, depth=19, tiers=("thorough",), timeout=1200)]
+            Gen("ChainHistoryGen8", "ChainHistoryGen8_sim", "simulate", num=800, depth=19, tiers=("thorough",), timeout=1200)]
     driver_pkg = "drivers/chainhistory"
     driver_test = "TestDriveTwins"
     trace_module = "ChainHistoryTrace"
@@ -35,6 +35,7 @@ class C08(Pipeline):
                 "thorough": {"VERIF_CH_RERUNS": "10", "VERIF_CH_DELAY_EVERY": "20"}}
     assumptions = [
         "full application (app.New) driven through InitChain / FinalizeBlock / Commit with really signed transactions; one prepared world per driver process (4 bonded validators with external accounts, keep-alives and equal relayer fees on two active EVM chains, treasury fees, a bridged ERC-20, a light node sale contract, snapshots built by the real end blocker, height 280); every run is a fork (copy of the database + app.New) of that world",
+        "the reference block request that the evm end blocker queues every 10 000 blocks (a height no history reaches) is queued during world preparation by calling the keeper function that end blocker calls (ScheduleReferenceBlockForChain)",
         "what only governance can do (add / activate chains, compass contract, fee manager, deployer, treasury fees, token mapping, sale contract) is done through the modules' governance proposal handlers on the uncached context during world preparation",
         "twins are sequential in one process (util/eventbus keeps subscribers in package globals); the perturbed twin and the R-1 re-runs replay the RAW transaction bytes of the reference run, so 'same sequence of blocks and transactions' is literal",
         "digest per block = app hash + every ExecTxResult (code, codespace, data, gas wanted/used, events with attribute order and index flag) + FinalizeBlock events, validator updates, consensus parameter updates; the free-text log of a failed transaction is NOT part of the digest (it is not part of consensus and contains stack addresses)",
